@@ -44,6 +44,7 @@ DECODE_T = R("decode_t", "decode_t.cfg", expect_ops=["decode_wire"], timeout=300
 SIG_Q = R("sig_q", "sig_q.cfg", rounds=3, expect_ops=["add_signature", "sign", "forge_signed", "obs_verify", "elide_set"])
 REMOVE_Q = R("remove_q", "remove_q.cfg", rounds=2, expect_ops=["remove_assertion", "replace_assertion", "replace_subject", "assertion_with_digest"])
 REELIDE_Q = R("reelide_q", "reelide_q.cfg", rounds=2, expect_ops=["elide", "elide_set", "unelide"])
+SSKR_MIX3_Q = R("sskr_mix3_q", "sskr_mix3_q.cfg", rounds=2, expect_ops=["sskr_split_pick", "sskr_pick_more", "sskr_join"], expect_out=["sskr_join:ok", "sskr_join:err"])
 SIG_Q2 = R("sig_q2", "sig_q2.cfg", rounds=2, expect_ops=["add_signature", "sign", "obs_verify", "elide_set"])
 SIG_Q3 = R("sig_q3", "sig_q3.cfg", rounds=2, expect_ops=["add_signature", "sign", "obs_verify"])
 SIG_T = R("sig_t", "sig_t.cfg", rounds=2, timeout=3000, expect_ops=["add_signature", "sign", "forge_signed", "obs_verify", "elide_set", "uncompress", "encode_decode"])
@@ -165,8 +166,8 @@ PLAN = {
     ),
     "C11": dict(
         rule="every SSKR policy with <= 2 groups of <= 3 members (78 policies) x every subset of the generated shares x shapes; shares of two splits mixed in registers (same key / different key / decrypted copy)",
-        quick=[SSKR_Q, SSKR_MIX_Q],
-        thorough=[SSKR_Q, SSKR_MIX_Q, SSKR_T, DEEP_X_T],
+        quick=[SSKR_Q, SSKR_MIX_Q, SSKR_MIX3_Q],
+        thorough=[SSKR_Q, SSKR_MIX_Q, SSKR_MIX3_Q, SSKR_T, DEEP_X_T],
     ),
     "C12": dict(
         rule="shapes (<= 3 elements, nodes of 5 incl. two-assertion nodes; repeated atoms give multi-position targets) x every target set of <= 2 digests incl. an absent one x proof_contains_set/target, then every ordered register pair (root, proof) - own proofs, proofs of other envelopes, further elided proofs - x target sets from both: confirm_contains_set/target by a verifier holding only the elided root",
